@@ -385,7 +385,7 @@ def run(ctx):
     ctx.coverage['counterexample'] = {'source': o['src'], 'verdict': v[0]['rejects']}
 
     # 2b. beyond the exhaustive bounds: programs from TLC simulation
-    sims = [('all', 3, 9, 4, ALL, 800)] if quick else [('all', 3, 10, 4, ALL, 9000), ('mid', 3, 12, 4, MID, 5000)]
+    sims = [('all', 3, 9, 4, ALL, 500)] if quick else [('all', 3, 10, 4, ALL, 9000), ('mid', 3, 12, 4, MID, 5000)]
     for (name, nn, mi, md, feat, k) in sims:
         cfg = write_cfg(ctx, 'sim_%s.cfg' % name, nn, mi, md, feat, 1, 0, 'CONSTRAINT Emit')
         res = run_tlc('Scoping', cfg, workers=1, timeout=3000, simulate='num=%d' % k, depth=60, seed=ctx.seed + 1)
@@ -439,7 +439,7 @@ def run(ctx):
     judge(ctx, good, vs, 'emitted')
 
     # 3. larger random programs (code -> spec)
-    nrand = 100 if quick else 1500
+    nrand = 60 if quick else 1500
     ctx.log('random programs: %d' % nrand)
     robs = jutil.pmap(random_case, [(ctx.seed * 100003 + k, ctx.rng.randint(12, 40), 4) for k in range(nrand)])
     jutil.check_worker_errors(robs)
@@ -457,7 +457,7 @@ def run(ctx):
     judge(ctx, rgood, rv, 'random')
     ctx.coverage['traces_validated_against_impl'] = len(good) + len(rgood) + 1
     ctx.coverage['goto_calls_blocked_by_internal_errors'] = blocked
-    if ctx.coverage.get('uses_executed', 0) < 1000 or ctx.coverage.get('random_uses_executed', 0) < 200:
+    if ctx.coverage.get('uses_executed', 0) < 1000 or ctx.coverage.get('random_uses_executed', 0) < 100:
         raise MachineryError('vacuity: too few executed uses judged (%s emitted, %s random)'
                              % (ctx.coverage.get('uses_executed'), ctx.coverage.get('random_uses_executed')))
 
